@@ -10,15 +10,15 @@ TRUST = ("Trusted base: CPython's ast module, the hivecheck path enumerator (str
 
 CLAIMED = {
  "C02": ("typestate pairing (acquire/release on all success paths) + who-may-call + finite-ordering truth tables",
-         "Static decision of the preservation obligations of the count invariant over every path of every enter()/exit(): A(enter)=R(exit) per activity class, must-flow of the updated entity, enter-call discipline, transition atomicity, closed caller/writer sets of the counters, bounded-counter truth tables over all orderings, helper contracts. Right level because the invariant quantifies over all instruction sequences, which only an inductive (per-transition) argument covers.", "4/C02"),
+         "Static decision of the preservation obligations of the count invariant over every path of every enter()/exit(): A(enter)=R(exit) per activity class, must-flow of the updated entity, enter-call discipline, transition atomicity, closed caller/writer sets of the counters, bounded-counter truth tables over all orderings, helper contracts, state lineage (no result is built on a state older than one produced by a call that can touch a counter), every successful enter installs the activity. Right level because the invariant quantifies over all instruction sequences, which only an inductive (per-transition) argument covers.", "4/C02"),
  "C07": ("guard dominance over path conditions of every enter() + provenance of instruction routes",
          "For every path of every enter() that reaches the state write, the location atom required by the activity is in the path condition with the accepting polarity; arrival branches, the route validator, instruction route provenance and the drop-off destination check are decided the same way. Covers every instruction from any controller because it quantifies over code paths, not over sampled instructions.", "4/C07"),
  "C10": ("guard dominance (membership atoms) + receiver-role census + truth tables of the membership predicates",
          "Every state write in every enter() is dominated by the membership test of the entity whose resource is used; the built-in dispatchers' filters and per-fleet fold are checked over all fleet counts; every grant_access_* call site is classified by receiver role. One construct (Dispatcher._is_valid_for_dispatch uses the vehicle as receiver) is a listed known finding.", "4/C10"),
  "C17": ("typestate pairing for the assignment record + enter-call discipline + guard dominance in the dispatcher filter",
-         "Assignment record acquired in enter() is released on every success path of exit() (except request gone), every enter() call is preceded by the previous activity's exit(), the record has a closed writer/caller set, the dispatcher's request filter implies 'no vehicle dispatched'. Inductive over all redirect/interrupt/strand histories.", "4/C17"),
+         "Assignment record acquired in enter() is released on every success path of exit() (except request gone), every enter() call is preceded by the previous activity's exit(), the record has a closed writer/caller set, the dispatcher's request filter implies 'no vehicle dispatched'; no state produced by a call that can touch the record is dropped from a result (state lineage), and every successful enter installs the activity. Inductive over all redirect/interrupt/strand histories.", "4/C17"),
  "C09": ("typestate transition shape + adopt-on-success / fold-threading dataflow + push/pop end consistency + phase threading",
-         "transition_previous_to_next returns enter(exit(sim)) or no state on every path; apply_instructions adopts only tested-successful states, threads its accumulator through every iteration without early exit and records 'applied' only when adopting; generator order, driver-last push, head/head stack ends and the phase threading of StepSimulation.update are decided on the expanded data flow. Covers every instruction/rejection combination because it is a statement about all paths.", "4/C09"),
+         "transition_previous_to_next returns enter(exit(sim)) or no state on every path; apply_instructions adopts only tested-successful states, threads its accumulator through every iteration without early exit and records 'applied' only when adopting; generator order, driver-last push, head/head stack ends and the phase threading of StepSimulation.update are decided on the expanded data flow; on the instruction path (everything apply_instructions can reach) no produced state is dropped, every successful enter installs the activity, and error pairs are used only after their error was ruled out. Covers every instruction/rejection combination because it is a statement about all paths.", "4/C09"),
 }
 CLAIMED.update(json.load(open(os.path.join(V, "tools", "claimed_extra.json"))) if os.path.exists(os.path.join(V, "tools", "claimed_extra.json")) else {})
 
